@@ -162,6 +162,35 @@ def sessions(ctx, pid, thorough, rng, exe, tmp):
         K = rng.choice([2, 3, 4, 8]); pol = rng.choice(["pct %d 4 %d" % (rng.randrange(10 ** 6), 40 * K), "rnd %d" % rng.randrange(10 ** 6), "rnd %d" % rng.randrange(10 ** 6)])
         s, meta, sess = conc_session(rng, "q%d" % i, None, None, None, K, rng.choice([12, 25, 40]), pol, debug=True, fill=rng.choice([0, 120, 126, 127, 128, 128, 128, 128]))
         runs.append((s, meta, sess, True))
+    # read-modify-write commands: several threads switch different functions of ONE function group of one train at the same
+    # time (each command carries the whole group: a command that reads the group outside the region in which it stores it
+    # loses the other thread's update) - and set the speed of that train; random schedules, the state at the end and every
+    # getter result in between must be explained by SOME order of the commands
+    if pid != "C06":
+        groups = [("h24", "h31"), ("h16", "h23"), ("h8", "h11"), ("h12", "h15")]
+        for i in range(80 if thorough else 24):
+            sess = g.Session("rmw%d" % i, track_mc.MC_CFG, os.path.join(tmp, "rmw%d" % i), paths=dict(track_mc.MC_PATHS), full=False); s = sess.s; meta = []
+            s.add("locks on")
+            K = rng.choice([2, 2, 3]); grp = rng.choice(groups)
+            s.add("threads " + rng.choice(["rnd %d" % rng.randrange(10 ** 6), "pct %d 3 60" % rng.randrange(10 ** 6), "pct %d 6 80" % rng.randrange(10 ** 6)]))
+            s.add("thread 1"); s.add("note feeder")
+            # every variable (a function, the speed) is written by one thread only, in program order: the state at the end
+            # does not depend on the interleaving, so any difference is a lost or torn update (no getter inside: a result
+            # taken while another call is between its effect and its return has no position in the event order)
+            for t in range(2, K + 2):
+                s.add("thread %d" % t)
+                for rep in range(rng.choice([1, 2, 3])):
+                    if t - 2 >= 2:
+                        sp = rng.choice([5, -7, 20, 0]); i2 = len(s.lines); s.add("hl bidib_set_train_speed t2 %d bA" % sp)
+                        meta.append((i2, t, {"e": "hl", "fn": "bidib_set_train_speed", "s": ["t2", "bA"], "i": sp}))
+                    else:
+                        fnid = grp[t - 2]; v = 1 if rep == 0 else rng.choice([0, 1]); i2 = len(s.lines); s.add("hl bidib_set_train_peripheral t2 %s %d bA" % (fnid, v))
+                        meta.append((i2, t, {"e": "hl", "fn": "bidib_set_train_peripheral", "s": ["t2", fnid, "bA"], "i": v}))
+            s.add("endthreads"); s.add("waitidle")
+            i2 = len(s.lines); s.add("drain"); j2 = len(s.lines); s.add("getall")
+            meta.append(((i2, j2), 0, {"e": "quiesce"}))
+            s.add("locks off"); s.add("stop")
+            runs.append((s, meta, sess, False))
     # exhaustive part: one delivery into a full queue against one or two readers, every interleaving of the receiver's
     # decision points with the read calls imposed explicitly (labels: 1 feeder, 2.. readers, 100 receiver)
     import itertools
